@@ -104,9 +104,12 @@ def tensordot_units(tier, syms=None):
                     continue
                 if (nd_a == 0 and lt_a > 1) or (nd_b == 0 and lt_b > 1):
                     continue
-                if not th and len(MOD[sym]) > 1 and lt_a + lt_b > 3:
+                deep = th and sym in ('Z2', 'U1')          # the deepest block counts: single-component symmetries only (solver time)
+                if not deep and len(MOD[sym]) > 1 and lt_a + lt_b > 3:
                     continue
-                if not th and nd_a + nd_b >= 5 and lt_a + lt_b > 3:
+                if not deep and nd_a + nd_b >= 5 and lt_a + lt_b > 3:
+                    continue
+                if max(lt_a, lt_b) == 3 and not (deep and nd_a + nd_b <= 4):
                     continue
                 for policy in ('fuse_to_matrix', 'fuse_contracted', 'no_fusion'):
                     transes = [(None, None)]
@@ -401,16 +404,19 @@ def more_units(tier):
                         continue
                     if nd == 0 and (lt_a > 1 or lt_b > 1):
                         continue
-                    if nd >= 3 and lt_a + lt_b > (4 if th else 3):
+                    deep = th and sym in ('Z2', 'U1')
+                    if nd >= 3 and lt_a + lt_b > 3:
                         continue
-                    if not th and len(MOD[sym]) > 1 and lt_a + lt_b > 3:
+                    if not deep and len(MOD[sym]) > 1 and lt_a + lt_b > 3:
+                        continue
+                    if max(lt_a, lt_b) == 3 and not (deep and nd <= 2):
                         continue
                     transes = [(None, None)] + ([(rev, rev), (rev, None)] if nd >= 2 else [])
                     for tra, trb in transes:
                         for op in ('add', 'sub'):
                             if op == 'sub' and (tra, trb) != (None, None):
                                 continue
-                            if not th and nd >= 3 and lt_a + lt_b > 2:
+                            if nd >= 3 and lt_a + lt_b > (3 if deep else 2):
                                 continue      # per-leg sorted sets of the merged structure: thousands of orderings
                             U.append(('h_add', f"{op},{sym},nd={nd},lt={lt_a}/{lt_b},trans={tra}/{trb}",
                                       dict(sym=sym, nd=nd, lt_a=lt_a, lt_b=lt_b, op=op, trans_a=tra, trans_b=trb)))
@@ -425,7 +431,7 @@ def more_units(tier):
                     continue
                 U.append(('h_add', f"add,diag,{sym},lt={lt_a}/{lt_b}", dict(sym=sym, nd=2, lt_a=lt_a, lt_b=lt_b, op='add', trans_a=None, trans_b=None, diag=True)))
                 for nd, axis, trb in ((1, 0, None), (2, 0, None), (2, 1, (1, 0)), (3, 1, None), (3, -1, (2, 0, 1))):
-                    if not th and len(MOD[sym]) > 1 and lt_a + lt_b > 3:
+                    if not (th and sym in ('Z2', 'U1')) and (len(MOD[sym]) > 1 and lt_a + lt_b > 3 or max(lt_a, lt_b) == 3):
                         continue
                     U.append(('h_broadcast', f"{sym},nd={nd},lt={lt_a}/{lt_b},axis={axis},trans={trb}",
                               dict(sym=sym, nd=nd, lt_a=lt_a, lt_b=lt_b, axis=axis, trans_b=trb)))
@@ -434,7 +440,9 @@ def more_units(tier):
             for lt in range(0, ltmax + 1):
                 if dense and lt > 1:
                     continue
-                if nd == 4 and lt > 2 and not th:
+                if nd == 4 and lt > 2:
+                    continue
+                if lt == 3 and not (th and sym in ('Z2', 'U1') and nd <= 3):
                     continue
                 for tr in trs:
                     U.append(('h_trace', f"{sym},nd={nd},in={in0}/{in1},lt={lt},trans={tr}", dict(sym=sym, nd=nd, lt=lt, in0=in0, in1=in1, trans=tr)))
